@@ -111,7 +111,7 @@ class Rotation(Harness):
     pid, name = "C07", "rotation"
     functions = [CP + "find_protoclusters", CP + "merge_over_origin", CP + "_extend_area_location",
                  "antismash.common.secmet.record:Record.connect_locations", "antismash.common.secmet.record:Record.extend_location"]
-    bound = ("circular record, G = 2 anchoring genes of one rule (plus G = 3 with the new origin in a gap between genes), origin moved to any position k in [0, n) (before, after or cutting "
+    bound = ("circular record, G = 2 anchoring genes of one rule, origin moved to any position k in [0, n) (before, after or cutting "
              "through either gene: the cut gene becomes a two-part origin-spanning gene, built by the specification of rotation), "
              "symbolic coordinates, cutoff and record length, neighbourhood 0; both records go through find_protoclusters in one path")
     outside = "G > 2; candidate cluster / region stages (covered per stage by C05/C06 on origin-spanning inputs); neighbourhood > 0"
@@ -124,11 +124,8 @@ class Rotation(Harness):
                 if (c0, c1) not in (("before", "before"), ("after", "before"), ("after", "after"), ("cut", "before"), ("after", "cut")):
                     continue   # the others contradict g0 lying before g1
                 out.append({"cases": [c0, c1]})
-        # three genes (three separate chains can only merge first with last across the origin): the new origin lies between
-        # genes; quick: after the first gene, thorough: every gap
-        for cases in ([["after", "before", "before"]] if tier == "quick" else
-                      [["before", "before", "before"], ["after", "before", "before"], ["after", "after", "before"], ["after", "after", "after"]]):
-            out.append({"cases": cases})
+        # (tried: G = 3 with the new origin in a gap between genes does not finish within 50 minutes on 16 cores - the path count of
+        # two find_protoclusters runs over three symbolic genes; the code below is general in G, the variants are not registered)
         return out
 
     def vars(self, var):
